@@ -24,18 +24,6 @@ func (zzLog) Errorf(string, ...any) {}
 func (zzLog) Fatalf(string, ...any) {}
 func (zzLog) Printf(string, ...any) {}
 
-// zzView: an arbitrary view; every field symbolic.
-func zzView(name string) *lib.View {
-	return &lib.View{
-		NetworkId:  zzU64(name + ".net"),
-		ChainId:    zzU64(name + ".chain"),
-		Height:     zzU64(name + ".height"),
-		RootHeight: zzU64(name + ".root"),
-		Round:      zzU64(name + ".round"),
-		Phase:      lib.Phase(zzI32(name + ".phase")),
-	}
-}
-
 // zzCtl: the Controller the BFT talks to. Everything it returns is chosen by the harness; what the
 // BFT sends is recorded.
 type zzCtl struct {
@@ -94,30 +82,3 @@ func (c *zzCtl) LoadMinimumEvidenceHeight(rootChainId, rootHeight uint64) (*uint
 func (c *zzCtl) IsValidDoubleSigner(rootChainId, rootHeight uint64, address []byte) bool { return true }
 func (c *zzCtl) LoadMaxBlockSize() int                                                 { return c.maxBlockSize }
 
-// zzValSet builds a committee of n validators with one-byte public keys {1}..{n} and the given
-// powers through the real lib.NewValidatorSet (key parsing is stubbed, DESIGN §3).
-var zzPubCache = map[int][]byte{}
-
-// zzPub: the public key of validator i. Symbolically a one-byte tag (key parsing is stubbed);
-// natively (replays) a real BLS key so that the real NewValidatorSet accepts it.
-func zzPub(i int) []byte {
-	if zzIsSym() {
-		return []byte{byte(i + 1)}
-	}
-	if k, ok := zzPubCache[i]; ok {
-		return k
-	}
-	pk, _ := crypto.NewBLS12381PrivateKey()
-	zzPubCache[i] = pk.PublicKey().Bytes()
-	return zzPubCache[i]
-}
-
-func zzValSet(powers []uint64) lib.ValidatorSet {
-	cv := &lib.ConsensusValidators{}
-	for i, p := range powers {
-		cv.ValidatorSet = append(cv.ValidatorSet, &lib.ConsensusValidator{PublicKey: zzPub(i), VotingPower: p})
-	}
-	vs, err := lib.NewValidatorSet(cv)
-	zzAssume(err == nil)
-	return vs
-}
